@@ -213,6 +213,20 @@ pub fn dispatch(op: &str, a: &[Val]) -> Option<Val> {
             if a.len() != 4 { return None; }
             Some(match perturbed(&v, f, seed) { Some(s) => enc_res(parse(kind, &s, f)?), None => verr("fmt") })
         })(),
+        "fp.rtxo" => (|| {
+            let kind = a.get(0)?.int()?;
+            let v = dec(kind, a.get(1)?)?;
+            let f = a.get(2)?.str()?;
+            let seed = a.get(3)?.u64()?;
+            if a.len() != 4 { return None; }
+            Some(match perturbed(&v, f, seed) {
+                Some(s) => match StrftimeItems::new(f).parse_to_owned() {
+                    Ok(items) => enc_res(parse_items(kind, &s, &items)?),
+                    Err(_) => verr("fmt"),
+                },
+                None => verr("fmt"),
+            })
+        })(),
         "fp.parse" => (|| {
             let kind = a.get(0)?.int()?;
             let text = a.get(1)?.str()?;
